@@ -139,3 +139,19 @@ func (d *DetRand) Read(p []byte) (int, error) {
 	<-d.mu
 	return len(p), nil
 }
+
+// The library gets its own copies of the lists of a configuration: what a case records as its input is what was
+// configured, whatever the library does to the slices it was given (nil and empty stay what they are).
+func copyU16(l []uint16) []uint16 {
+	if l == nil {
+		return nil
+	}
+	return append(make([]uint16, 0, len(l)), l...)
+}
+
+func copyStrings(l []string) []string {
+	if l == nil {
+		return nil
+	}
+	return append(make([]string, 0, len(l)), l...)
+}
